@@ -1275,4 +1275,391 @@ theorem ReachableR.basic {g : Graph} (hwf : graphWF g = true) {ncls : Nat} {stor
   | init => exact Basic.init g hwf ncls store
   | step w out fuel _ hw hf ih => exact ih.step hwf w out fuel hw hf
 
+/-! ## counting the results of a class -/
+
+/-- total number of results of the copies of class `c` -/
+def classLen (g : Graph) (s : State) (c : Nat) : Nat :=
+  ((g.classNodes c).map (fun j => (s.nd j).results.length)).sum
+
+theorem mem_classNodes (g : Graph) (c n : Nat) : n ∈ g.classNodes c ↔ n < g.nodes.length ∧ (g.node n).cls = c := by
+  unfold Graph.classNodes
+  simp [List.mem_filter, List.mem_range]
+
+theorem nodup_classNodes (g : Graph) (c : Nat) : (g.classNodes c).Nodup := by
+  unfold Graph.classNodes
+  exact List.Nodup.sublist List.filter_sublist List.nodup_range
+
+theorem sum_map_le (l : List Nat) (f f' : Nat → Nat) (h : ∀ j ∈ l, f j ≤ f' j) : (l.map f).sum ≤ (l.map f').sum := by
+  induction l with
+  | nil => simp
+  | cons a r ih =>
+    simp only [List.map_cons, List.sum_cons]
+    have := h a List.mem_cons_self
+    have := ih (fun j hj => h j (List.mem_cons_of_mem _ hj))
+    omega
+
+theorem sum_map_congr (l : List Nat) (f f' : Nat → Nat) (h : ∀ j ∈ l, f j = f' j) : (l.map f).sum = (l.map f').sum := by
+  have a := sum_map_le l f f' (fun j hj => Nat.le_of_eq (h j hj))
+  have b := sum_map_le l f' f (fun j hj => Nat.le_of_eq (h j hj).symm)
+  omega
+
+theorem sum_map_succ (l : List Nat) (hl : l.Nodup) (n : Nat) (hn : n ∈ l) (f f' : Nat → Nat) (h1 : f' n = f n + 1)
+    (h2 : ∀ j ∈ l, j ≠ n → f' j = f j) : (l.map f').sum = (l.map f).sum + 1 := by
+  induction l with
+  | nil => simp at hn
+  | cons a r ih =>
+    simp only [List.map_cons, List.sum_cons]
+    rw [List.nodup_cons] at hl
+    by_cases ha : a = n
+    · subst ha
+      have : (r.map f').sum = (r.map f).sum :=
+        sum_map_congr r f' f (fun j hj => h2 j (List.mem_cons_of_mem _ hj) (fun e => hl.1 (e ▸ hj)))
+      omega
+    · have hnr : n ∈ r := by
+        rcases List.mem_cons.mp hn with h | h
+        · exact absurd h.symm ha
+        · exact h
+      have := ih hl.2 hnr (fun j hj => h2 j (List.mem_cons_of_mem _ hj))
+      have := h2 a List.mem_cons_self ha
+      omega
+
+theorem sum_map_split (l : List Nat) (hl : l.Nodup) (n : Nat) (hn : n ∈ l) (f : Nat → Nat) :
+    f n + ((l.filter (· != n)).map f).sum = (l.map f).sum := by
+  induction l with
+  | nil => simp at hn
+  | cons a r ih =>
+    rw [List.nodup_cons] at hl
+    by_cases ha : a = n
+    · subst ha
+      have : (a :: r).filter (· != a) = r := by
+        rw [List.filter_cons]
+        simp only [bne_self_eq_false, Bool.false_eq_true, if_false]
+        rw [List.filter_eq_self]
+        intro j hj
+        simp only [bne_iff_ne, ne_eq]
+        exact fun e => hl.1 (e ▸ hj)
+      rw [this]; simp
+    · have hnr : n ∈ r := by
+        rcases List.mem_cons.mp hn with h | h
+        · exact absurd h.symm ha
+        · exact h
+      have := ih hl.2 hnr
+      rw [List.filter_cons]
+      have hb : (a != n) = true := by simpa using ha
+      simp only [hb, if_true, List.map_cons, List.sum_cons]
+      omega
+
+/-- the shared results of a (non-flat) copy number as many as the results of its class -/
+theorem sharedResults_length (g : Graph) (s : State) (i : Nat) (hi : i < g.nodes.length) (hflat : (g.node i).flat = false) :
+    (sharedResults g s i).length = classLen g s (g.node i).cls := by
+  unfold sharedResults Graph.copies classLen
+  simp only [hflat, Bool.false_eq_true, if_false, List.length_flatMap, List.map_cons, List.sum_cons]
+  exact sum_map_split _ (nodup_classNodes g _) i ((mem_classNodes g _ i).mpr ⟨hi, rfl⟩) (fun j => (s.nd j).results.length)
+
+/-- no copy of the class is an object root -/
+def goodClass (g : Graph) (c : Nat) : Bool := (g.classNodes c).all (fun j => !(g.node j).objectRoot)
+
+/-- a parsed (non-flat) copy of a class without object roots -/
+def good (g : Graph) (i : Nat) : Bool := decide (i < g.nodes.length) && !(g.node i).flat && goodClass g (g.node i).cls
+
+theorem good_spec {g : Graph} {i : Nat} (h : good g i = true) :
+    i < g.nodes.length ∧ (g.node i).flat = false ∧ goodClass g (g.node i).cls = true ∧ (g.node i).objectRoot = false := by
+  unfold good at h
+  simp only [Bool.and_eq_true, decide_eq_true_eq, Bool.not_eq_true'] at h
+  refine ⟨h.1.1, h.1.2, h.2, ?_⟩
+  have := h.2
+  unfold goodClass at this
+  rw [List.all_eq_true] at this
+  have := this i ((mem_classNodes g _ i).mpr ⟨h.1.1, rfl⟩)
+  simpa using this
+
+theorem goodClass_notRoot {g : Graph} {c j : Nat} (h : goodClass g c = true) (hj : j ∈ g.classNodes c) :
+    (g.node j).objectRoot = false := by
+  unfold goodClass at h
+  rw [List.all_eq_true] at h
+  simpa using h j hj
+
+theorem classLen_mono {g : Graph} {s s' : State} {c : Nat} (hc : goodClass g c = true)
+    (h : ∀ j, (g.node j).objectRoot = false → (s.nd j).results.length ≤ (s'.nd j).results.length) :
+    classLen g s c ≤ classLen g s' c :=
+  sum_map_le _ _ _ (fun j hj => h j (goodClass_notRoot hc hj))
+
+theorem classLen_anti {g : Graph} {s s' : State} {c : Nat} (hc : goodClass g c = true)
+    (h : ∀ j, (g.node j).objectRoot = false → (s'.nd j).results.length ≤ (s.nd j).results.length) :
+    classLen g s' c ≤ classLen g s c :=
+  sum_map_le _ _ _ (fun j hj => h j (goodClass_notRoot hc hj))
+
+theorem classLen_succ {g : Graph} {s s' : State} {c n : Nat} (hn : n < g.nodes.length) (hc : (g.node n).cls = c)
+    (h1 : (s'.nd n).results.length = (s.nd n).results.length + 1)
+    (h2 : ∀ j, j ≠ n → (s'.nd j).results.length = (s.nd j).results.length) :
+    classLen g s' c = classLen g s c + 1 :=
+  sum_map_succ _ (nodup_classNodes g c) n ((mem_classNodes g c n).mpr ⟨hn, hc⟩) _ _ h1 (fun j _ hj => h2 j hj)
+
+theorem classLen_other {g : Graph} {s s' : State} {c n : Nat} (hc : (g.node n).cls ≠ c)
+    (h2 : ∀ j, j ≠ n → (s'.nd j).results.length = (s.nd j).results.length) :
+    classLen g s' c = classLen g s c :=
+  sum_map_congr _ _ _ (fun j hj => h2 j (fun e => hc (e ▸ ((mem_classNodes g c j).mp hj).2)))
+
+/-- `uidOf` is injective in the retry counter -/
+theorem uidOf_inj (p : String) {k k' : Nat} (h : uidOf p k = uidOf p k') : k = k' := by
+  unfold uidOf at h
+  have hlen : ∀ n : Nat, (p ++ "r" ++ toString n).length = p.length + 1 + (toString n).length := by
+    intro n; simp only [String.length_append]; rfl
+  by_cases hk : k > 0 <;> by_cases hk' : k' > 0
+  · simp only [hk, hk', if_true] at h
+    have h2 : (p ++ "r" ++ toString k).toList = (p ++ "r" ++ toString k').toList := by rw [h]
+    simp only [String.toList_append, List.append_assoc] at h2
+    have h3 := List.append_cancel_left (List.append_cancel_left h2)
+    have h4 : toString k = toString k' := String.ext_iff.mpr h3
+    exact Nat.repr_inj.mp h4
+  · simp only [hk, hk', if_true, if_false] at h
+    have := congrArg String.length h; rw [hlen] at this; omega
+  · simp only [hk, hk', if_true, if_false] at h
+    have := congrArg String.length h; rw [hlen] at this; omega
+  · omega
+
+theorem filter_length_split (l : List Result) (p : Result → Bool) :
+    (l.filter p).length + (l.filter (fun r => !p r)).length = l.length := by
+  induction l with
+  | nil => rfl
+  | cons a r ih =>
+    simp only [List.filter_cons]
+    cases hp : p a <;> simp <;> omega
+
+theorem settle_len (l : List Result) (res : Result) (tag : Nat) (hres : isPh tag res = false) :
+    ((l ++ [res]).filter (fun r => !isPh tag r)).length + (l.filter (isPh tag)).length = l.length + 1 := by
+  rw [List.filter_append, List.length_append]
+  have : [res].filter (fun r => !isPh tag r) = [res] := by simp [hres]
+  rw [this]
+  have := filter_length_split l (isPh tag)
+  simp only [List.length_singleton]
+  omega
+
+theorem isPh_res_false (res : Result) (tag : Nat) (hres : res.tag = 0) (ht : 1 ≤ tag) : isPh tag res = false := by
+  unfold isPh
+  rw [hres]
+  have : (0 == tag) = false := by simp; omega
+  rw [this]; simp
+
+/-- effect of `settleNd` on the length of every result list -/
+theorem settleNd_results (s : State) (n : Nat) (res : Result) (tag : Nat) (j : Nat) :
+    ((settleNd s n res tag).nd j).results = (s.nd j).results ∨
+    (j = n ∧ ((settleNd s n res tag).nd j).results = ((s.nd j).results ++ [res]).filter (fun r => !isPh tag r)) := by
+  unfold settleNd
+  rcases nd_setNd_cases s n (fun d => { d with results := (d.results ++ [res]).filter (fun r => !(r.status == "UNKNOWN" && r.tag == tag)) }) j with h | ⟨h1, _, h⟩
+  · left; rw [h]
+  · right; exact ⟨h1, by rw [h]; rfl⟩
+
+/-! ## identifiers -/
+
+/-- names of distinct copies differ -/
+def NamesInj (g : Graph) : Prop :=
+  ∀ i j, i < g.nodes.length → j < g.nodes.length → (g.node i).name = (g.node j).name → i = j
+
+/-- no test proper of a class without object roots is named like a creation pre-step -/
+def PreNamesFresh (g : Graph) : Prop :=
+  ∀ i m v, i < g.nodes.length → m < g.nodes.length → v < g.workers.length → good g i = true →
+    (g.node i).name ≠ preNameOf g m v
+
+/-- "is the name of a parsed copy of a class without object roots" -/
+def goodName (g : Graph) (nm : String) : Bool :=
+  (List.range g.nodes.length).any (fun i => good g i && (g.node i).name == nm)
+
+theorem goodName_spec {g : Graph} {nm : String} (h : goodName g nm = true) : ∃ i, good g i = true ∧ (g.node i).name = nm := by
+  unfold goodName at h
+  rw [List.any_eq_true] at h
+  obtain ⟨i, _, hi⟩ := h
+  simp only [Bool.and_eq_true, beq_iff_eq] at hi
+  exact ⟨i, hi.1, hi.2⟩
+
+theorem goodName_of {g : Graph} {i : Nat} (h : good g i = true) : goodName g (g.node i).name = true := by
+  unfold goodName
+  rw [List.any_eq_true]
+  exact ⟨i, List.mem_range.mpr (good_spec h).1, by simp [h]⟩
+
+/-- Identifier invariant.  `recorded`: every job record under the name of a good copy carries a counter below
+the current number of results of the class; `inflight`: so does every execution in flight; `nodup`: records
+of good copies have distinct (name, uid); `unreported`: an execution in flight has no record yet;
+`distinct`: executions in flight differ in (name, uid). -/
+structure Uids (g : Graph) (s : State) (L : Nat → Prop) : Prop where
+  recorded : ∀ i k, good g i = true → k ∈ keys s → k.1 = (g.node i).name →
+    ∃ j, j < classLen g s (g.node i).cls ∧ k.2 = uidOf (g.node i).pfx j
+  inflight : ∀ v n dir uid tag wait, L v → (s.wd v).pc = .test n .plain dir uid tag wait → good g n = true →
+    ∃ j, j < classLen g s (g.node n).cls ∧ uid = uidOf (g.node n).pfx j
+  nodup : ((keys s).filter (fun k => goodName g k.1)).Nodup
+  unreported : ∀ v n dir uid tag wait, L v → (s.wd v).pc = .test n .plain dir uid tag wait → good g n = true →
+    ((g.node n).name, uid) ∉ keys s
+  distinct : ∀ v v' n dir uid tag wait n' dir' uid' tag' wait', L v → L v' → v ≠ v' →
+    (s.wd v).pc = .test n .plain dir uid tag wait → (s.wd v').pc = .test n' .plain dir' uid' tag' wait' →
+    good g n = true → ((g.node n).name, uid) ≠ ((g.node n').name, uid')
+
+theorem Uids.mono {g : Graph} {s : State} {L L' : Nat → Prop} (u : Uids g s L) (h : ∀ v, L' v → L v) : Uids g s L' :=
+  ⟨u.recorded, fun v n dir uid tag wait hl => u.inflight v n dir uid tag wait (h v hl), u.nodup,
+   fun v n dir uid tag wait hl => u.unreported v n dir uid tag wait (h v hl),
+   fun v v' n dir uid tag wait n' dir' uid' tag' wait' hl hl' =>
+     u.distinct v v' n dir uid tag wait n' dir' uid' tag' wait' (h v hl) (h v' hl')⟩
+
+/-- same records, the test pcs of the workers of `L` are old ones, the classes without object roots did not shrink -/
+theorem Uids.transfer {g : Graph} {s s' : State} {L : Nat → Prop} (u : Uids g s L) (hk : keys s' = keys s)
+    (hpc : ∀ v, L v → ∀ n dir uid tag wait, (s'.wd v).pc = .test n .plain dir uid tag wait →
+      (s.wd v).pc = .test n .plain dir uid tag wait)
+    (hlen : ∀ c, goodClass g c = true → classLen g s c ≤ classLen g s' c) : Uids g s' L := by
+  refine ⟨?_, ?_, by rw [hk]; exact u.nodup, ?_, ?_⟩
+  · intro i k hi hkm hnm
+    rw [hk] at hkm
+    obtain ⟨j, hj, he⟩ := u.recorded i k hi hkm hnm
+    exact ⟨j, Nat.lt_of_lt_of_le hj (hlen _ (good_spec hi).2.2.1), he⟩
+  · intro v n dir uid tag wait hl h hg
+    obtain ⟨j, hj, he⟩ := u.inflight v n dir uid tag wait hl (hpc v hl _ _ _ _ _ h) hg
+    exact ⟨j, Nat.lt_of_lt_of_le hj (hlen _ (good_spec hg).2.2.1), he⟩
+  · intro v n dir uid tag wait hl h hg
+    rw [hk]
+    exact u.unreported v n dir uid tag wait hl (hpc v hl _ _ _ _ _ h) hg
+  · intro v v' n dir uid tag wait n' dir' uid' tag' wait' hl hl' hvv h h' hg
+    exact u.distinct v v' n dir uid tag wait n' dir' uid' tag' wait' hl hl' hvv (hpc v hl _ _ _ _ _ h) (hpc v' hl' _ _ _ _ _ h') hg
+
+theorem Uids.silent {g : Graph} {w : Nat} {s s' : State} {L : Nat → Prop} (u : Uids g s L) (a : Silent g w s s') : Uids g s' L :=
+  u.transfer (by unfold keys; rw [a.job]) (fun v _ _ _ _ _ _ h => (a.back v h).1)
+    (fun c _ => Nat.le_of_eq (sum_map_congr _ _ _ (fun j _ => by rw [a.results])))
+
+/-- the stepping worker's clauses are supplied (vacuous unless it is in a test proper) -/
+theorem Uids.close {g : Graph} {s : State} {w : Nat} (u : Uids g s (Ex w))
+    (h : ∀ n dir uid tag wait, (s.wd w).pc = .test n .plain dir uid tag wait →
+      (good g n = true → (∃ j, j < classLen g s (g.node n).cls ∧ uid = uidOf (g.node n).pfx j) ∧ ((g.node n).name, uid) ∉ keys s) ∧
+      (∀ v n' dir' uid' tag' wait', v ≠ w → (s.wd v).pc = .test n' .plain dir' uid' tag' wait' →
+        good g n = true ∨ good g n' = true → ((g.node n).name, uid) ≠ ((g.node n').name, uid'))) : Uids g s All := by
+  refine ⟨u.recorded, ?_, u.nodup, ?_, ?_⟩
+  · intro v n dir uid tag wait _ hp hg
+    by_cases hv : v = w
+    · subst hv; exact ((h n dir uid tag wait hp).1 hg).1
+    · exact u.inflight v n dir uid tag wait hv hp hg
+  · intro v n dir uid tag wait _ hp hg
+    by_cases hv : v = w
+    · subst hv; exact ((h n dir uid tag wait hp).1 hg).2
+    · exact u.unreported v n dir uid tag wait hv hp hg
+  · intro v v' n dir uid tag wait n' dir' uid' tag' wait' _ _ hvv hp hp' hg
+    by_cases hv : v = w
+    · subst hv
+      exact (h n dir uid tag wait hp).2 v' n' dir' uid' tag' wait' (Ne.symm hvv) hp' (Or.inl hg)
+    · by_cases hv' : v' = w
+      · subst hv'
+        exact fun e => (h n' dir' uid' tag' wait' hp').2 v n dir uid tag wait hv hp (Or.inr hg) e.symm
+      · exact u.distinct v v' n dir uid tag wait n' dir' uid' tag' wait' hv hv' hvv hp hp' hg
+
+/-! ### what `startTest` does, field by field -/
+
+theorem startTest_keys (g : Graph) (s : State) (n w : Nat) (ph : Phase) (dir : Dir) :
+    keys (startTest g s n w ph dir).1 = keys s := by
+  cases ph <;> rfl
+
+theorem startTest_wd_ne (g : Graph) (s : State) (n w : Nat) (ph : Phase) (dir : Dir) (v : Nat) (hv : v ≠ w) :
+    (startTest g s n w ph dir).1.wd v = s.wd v := by
+  cases ph
+  · rw [startTest_nonpre_fst g s n w .plain dir (by decide)]; exact wd_setWd_ne _ w v _ hv
+  · rw [startTest_pre_fst]; exact wd_setWd_ne _ w v _ hv
+  · rw [startTest_nonpre_fst g s n w .main dir (by decide)]; exact wd_setWd_ne _ w v _ hv
+
+theorem startTest_pc (g : Graph) (s : State) (n w : Nat) (ph : Phase) (dir : Dir) (hw : w < s.workers.length) :
+    ((startTest g s n w ph dir).1.wd w).pc =
+      .test n ph dir (if ph = .pre then uidOf "0" (s.wd w).preResults.length else uidOf (g.node n).pfx (sharedResults g s n).length)
+        s.nextTag 0 := by
+  cases ph
+  · rw [startTest_nonpre_fst g s n w .plain dir (by decide)]
+    rw [wd_setWd_eq _ w _ (by exact hw)]; rfl
+  · rw [startTest_pre_fst]
+    rw [wd_setWd_eq _ w _ (by exact hw)]; rfl
+  · rw [startTest_nonpre_fst g s n w .main dir (by decide)]
+    rw [wd_setWd_eq _ w _ (by exact hw)]; rfl
+
+theorem startTest_results (g : Graph) (s : State) (n w : Nat) (ph : Phase) (dir : Dir) (j : Nat) :
+    ((startTest g s n w ph dir).1.nd j).results = (s.nd j).results ∨
+    (ph ≠ .pre ∧ j = n ∧ n < s.nodes.length ∧
+      ((startTest g s n w ph dir).1.nd j).results = (s.nd j).results ++ [phOf (g.node n).name s.nextTag]) := by
+  by_cases hph : ph = .pre
+  · subst hph; left; rfl
+  · rw [startTest_nonpre_fst g s n w ph dir hph]
+    rcases nd_setNd_cases ({ s with nextTag := s.nextTag + 1 }) n
+      (fun d => { d with results := d.results ++ [phOf (g.node n).name s.nextTag] }) j with h | ⟨h1, h2, h⟩
+    · left
+      show ((({ s with nextTag := s.nextTag + 1 } : State).setNd n _).nd j).results = _
+      rw [h]; rfl
+    · right
+      refine ⟨hph, h1, h2, ?_⟩
+      show ((({ s with nextTag := s.nextTag + 1 } : State).setNd n _).nd j).results = _
+      rw [h]; rfl
+
+theorem startTest_results_le (g : Graph) (s : State) (n w : Nat) (ph : Phase) (dir : Dir) (j : Nat) :
+    (s.nd j).results.length ≤ ((startTest g s n w ph dir).1.nd j).results.length := by
+  rcases startTest_results g s n w ph dir j with h | ⟨_, _, _, h⟩
+  · rw [h]; exact Nat.le_refl _
+  · rw [h, List.length_append]; omega
+
+theorem Uids.closeOther {g : Graph} {s : State} {w : Nat} (u : Uids g s (Ex w))
+    (h : ∀ n dir uid tag wait, (s.wd w).pc ≠ .test n .plain dir uid tag wait) : Uids g s All :=
+  u.close (fun n dir uid tag wait hp => absurd hp (h n dir uid tag wait))
+
+/-- a start of a creation step (pre or main) hands out no identifier of a test proper -/
+theorem Uids.startOther {g : Graph} {s : State} {w : Nat} (u : Uids g s (Ex w)) (n : Nat) (ph : Phase) (dir : Dir)
+    (hph : ph ≠ .plain) (hw : w < s.workers.length) : Uids g (startTest g s n w ph dir).1 All := by
+  have u1 : Uids g (startTest g s n w ph dir).1 (Ex w) :=
+    u.transfer (startTest_keys g s n w ph dir)
+      (fun v hv n' dir' uid tag wait h => by rw [startTest_wd_ne g s n w ph dir v hv] at h; exact h)
+      (fun c hc => classLen_mono hc (fun j _ => startTest_results_le g s n w ph dir j))
+  refine u1.closeOther (fun n' dir' uid tag wait h => ?_)
+  rw [startTest_pc g s n w ph dir hw] at h
+  cases h
+  exact hph rfl
+
+/-- a start of a test proper hands out a fresh identifier -/
+theorem Uids.startPlain {g : Graph} {s : State} {w : Nat} (u : Uids g s (Ex w)) (b : Basic g s (Ex w)) (hN : NamesInj g)
+    (n : Nat) (dir : Dir) (hn : n < g.nodes.length) (hw : w < g.workers.length) :
+    Uids g (startTest g s n w .plain dir).1 All := by
+  have hws : w < s.workers.length := by rw [b.workersLen]; exact hw
+  have hns : n < s.nodes.length := by rw [b.nodesLen]; exact hn
+  have u1 : Uids g (startTest g s n w .plain dir).1 (Ex w) :=
+    u.transfer (startTest_keys g s n w .plain dir)
+      (fun v hv n' dir' uid tag wait h => by rw [startTest_wd_ne g s n w .plain dir v hv] at h; exact h)
+      (fun c hc => classLen_mono hc (fun j _ => startTest_results_le g s n w .plain dir j))
+  have hcl : classLen g (startTest g s n w .plain dir).1 (g.node n).cls = classLen g s (g.node n).cls + 1 := by
+    refine classLen_succ hn rfl ?_ ?_
+    · rcases startTest_results g s n w .plain dir n with h | ⟨_, _, _, h⟩
+      · rw [startTest_nonpre_fst g s n w .plain dir (by decide)] at h
+        have h' : ((({ s with nextTag := s.nextTag + 1 } : State).setNd n
+            (fun d => { d with results := d.results ++ [phOf (g.node n).name s.nextTag] })).nd n).results = (s.nd n).results := h
+        rw [nd_setNd_eq _ n _ (by exact hns)] at h'
+        have := congrArg List.length h'
+        simp only [List.length_append, List.length_singleton] at this
+        exact absurd this (by show ¬ (s.nd n).results.length + 1 = (s.nd n).results.length; omega)
+      · rw [h, List.length_append]; rfl
+    · intro j hj
+      rcases startTest_results g s n w .plain dir j with h | ⟨_, h, _⟩
+      · rw [h]
+      · exact absurd h hj
+  refine u1.close (fun n' dir' uid tag wait hp => ?_)
+  rw [startTest_pc g s n w .plain dir hws] at hp
+  simp only [reduceCtorEq, if_false, Pc.test.injEq] at hp
+  obtain ⟨hn', _, _, huid, _, _⟩ := hp
+  subst hn' huid
+  refine ⟨fun hg => ?_, ?_⟩
+  · have hsl := sharedResults_length g s n hn (good_spec hg).2.1
+    refine ⟨⟨(sharedResults g s n).length, by rw [hcl, hsl]; omega, rfl⟩, ?_⟩
+    rw [startTest_keys]
+    intro hmem
+    obtain ⟨j, hj, he⟩ := u.recorded n _ hg hmem rfl
+    have := uidOf_inj _ he
+    rw [hsl] at this
+    omega
+  · intro v n2 dir2 uid2 tag2 wait2 hv hp2 hgg heq
+    rw [startTest_wd_ne g s n w .plain dir v hv] at hp2
+    have hn2 := (b.pcOK v n2 .plain dir2 uid2 tag2 wait2 hv hp2).1
+    simp only [Prod.mk.injEq] at heq
+    have hnn : n = n2 := hN n n2 hn hn2 heq.1
+    subst hnn
+    have hg : good g n = true := by rcases hgg with h | h <;> exact h
+    obtain ⟨j, hj, he⟩ := u.inflight v n dir2 uid2 tag2 wait2 hv hp2 hg
+    have hsl := sharedResults_length g s n hn (good_spec hg).2.1
+    have := uidOf_inj _ (heq.2.trans he)
+    rw [hsl] at this
+    omega
+
 end I2N.Trav
